@@ -18,7 +18,9 @@ CHECKS = {
             "per-call outcomes, bytes before moov and every table/header field (read from the real bytes by the independent extracted parser) over "
             "shape-exhaustive small + random histories in debug and release; oracle: real writer -> real reader vs the history.",
             "Coq proof of writer invariants + model/implementation correspondence + read-back oracle",
-            "The moov encoding/decoding step is covered per box by C04 round-trip theorems and by the read-back oracle, not by one composed theorem. " + TB),
+            "Since round 2 the composition is ONE theorem (Props/C01Open.v, C01_mux_then_open): open_fuel (the model of Mp4Reader::read_header) run on the muxer's COMPLETE output bytes "
+            "(ftyp, mdat in either size form, payload, encoded moov) succeeds and the resulting reader's accessors and sample calls return the configuration and the history; hypotheses: "
+            "representable configuration (C04's hypothesis; AAC object type < 31 = known finding D80), moov < 4 GiB, output < 2^63 bytes. " + TB),
     "C02": ("proof",
             "Kernel-checked (C02_valid_output etc.): for every accepted history the writer model's tables pass the independent validator's per-track rule "
             "(totals of stsz/stts/ctts/stsc x chunk offsets = samples written, stss increasing and in range), all chunk extents lie inside the mdat payload "
@@ -46,7 +48,8 @@ CHECKS = {
     "C14": ("proof",
             "Kernel-checked (configuration_survives, durations_survive): accepted configurations reach the final track records unchanged in order with ids "
             "1..n, ftyp bytes and movie timescale from the configuration, durations exact / within one tick. Tie/oracle: every reader accessor on the real "
-            "muxer's output vs the configuration for all AAC triples, boundary dimensions, parameter-set lengths, languages, brands, timescales.",
+            "muxer's output vs the configuration for all AAC triples, boundary dimensions, parameter-set lengths, languages, brands, timescales. Reader side: Props/C01Open.v "
+            "(conf_survives): every accessor of the reader opened on the muxer's complete bytes returns the configuration.",
             "Coq proof over the writer model + accessor oracle on real output",
             "The codec-parameter bytes inside stsd (avcC, esds, ...) are covered by the C04/C05 box theorems and the accessor oracle. Known finding D80 "
             "(AAC object types >= 32). " + TB),
@@ -105,12 +108,14 @@ CHECKS.update({
             "Coq proof (lookup model = fragment specification) + correspondence",
             "Known finding D72 (single trex). Runs without per-sample sizes / without tfdt are outside the property. " + TB),
     "C10": ("proof",
-            "PARTIAL. Kernel-checked for the model: every program of the read and write monads (open, open fragment, read_sample, every encoder) returns Err EIo whenever the "
-            "injected fault is delivered, and a fault armed within the run's call count is delivered (free-monad theorems, no catch node exists). Not expressible in the "
-            "model: that std's read_exact/write_all and byteorder loop over short transfers and retry Interrupted (a transfer is atomic in the model) — that half is "
-            "exercised, not proved: every fault index x {error, zero-length write} on files and histories, transfer splitting at 1/2/3/7 bytes with Interrupted.",
-            "Coq free-monad fault theorem + exhaustive fault-index enumeration on the real code",
-            "Labelled partial: the short-transfer half is fault_enumeration-level evidence only. The muxer is stopped after the first I/O error (the property speaks of the call in progress). " + TB),
+            "PARTIAL. Kernel-checked for the model: (a) every program of the read and write monads (open, open fragment, read_sample, every encoder) returns Err EIo whenever the "
+            "injected fault is delivered, and a fault armed within the run's call count is delivered (free-monad theorems, no catch node exists); (b) short_reads_transparent / "
+            "short_writes_transparent: with every transfer node replaced by a model of std's read_exact / write_all loop over a raw stream that follows an ARBITRARY schedule of short "
+            "transfers and Interrupted failures, every program returns the same result and leaves the same stream. The loops are a MODEL of std (trusted base); that the library moves bytes "
+            "through nothing else is the source-regenerated lemma io_discipline (Props/C10.v). Exercised on the real code: every fault index x {error, zero-length write} on files and "
+            "histories, transfer splitting at 1/2/3/7 bytes with Interrupted.",
+            "Coq free-monad fault theorem + Coq model of std's transfer loops + source-regenerated I/O call-site table + exhaustive fault-index enumeration on the real code",
+            "Labelled partial: std's and byteorder's real loops are modelled, not verified. The muxer is stopped after the first I/O error (the property speaks of the call in progress). " + TB),
     "C11": ("proof",
             "Kernel-checked: prefix_stable (any run that does not hit the end of the prefix behaves identically on the complete data: Ok, data errors and panics alike), "
             "read_sample_prefix, open_prefix_moov (same ftyp/moov, moofs of the prefix reader are a prefix), truncated_unfragmented and truncated_fragmented (samples read through "
@@ -125,9 +130,11 @@ CHECKS.update({
             "The single end-to-end theorem over arbitrary box trees is kept as C12_statement (not proved); stsd/edts/hev1/vp09/dref read one child and are outside 'containers that iterate'. " + TB),
     "C15": ("proof",
             "PARTIAL. Kernel-checked for the model: read_sample's result is independent of the stream position, the stream content is immutable, and any schedule of calls "
-            "returns call by call what a fresh reader returns. Hidden mutable state / iteration order in live Rust objects cannot be exhibited by a pure model: exercised by "
-            "random call schedules vs fresh readers, the same bytes opened in separate processes, the same history muxed three times.",
-            "Coq purity proofs + schedule exploration on the real reader",
+            "returns call by call what a fresh reader returns. The model's state (immutable reader record + stream; writer records) is tied to the source by the regenerated lemma "
+            "state_is_the_models (Props/C15.v): the four stateful structs have exactly the model's fields and the crate uses no interior mutability or global state. Iteration order / "
+            "allocator- or hash-seed-dependent behaviour of live Rust objects cannot be exhibited by a pure model: exercised by random call schedules vs fresh readers (and, in every "
+            "read-side check, by repeating every sample call on the same reader in reverse and scrambled order), the same bytes opened in separate processes, the same history muxed three times.",
+            "Coq purity proofs + source-regenerated state table + schedule exploration on the real reader",
             "Labelled partial: determinism of the real objects is exploration-level evidence. " + TB),
 })
 
